@@ -9,7 +9,7 @@
    consumed (POSTCONDITION AllConsumed); each event's verdict (ok / skip / a
    diagnosis) goes to the verdict file, so that one rejected event never hides
    the rest of the trace. *)
-EXTENDS SemOverflow, AsCodedOverflow, SemScaled, SemRounding, AsCodedRounding, SemElastic, SemBits, SemSqrt, TLC, TLCExt, Json, IOUtils, CSV
+EXTENDS SemOverflow, AsCodedOverflow, SemScaled, SemRounding, AsCodedRounding, SemElastic, SemBits, SemSqrt, SemFraction, TLC, TLCExt, Json, IOUtils, CSV
 
 Tr == ndJsonDeserialize(IOEnv.TRACE)
 Insts == ndJsonDeserialize(IOEnv.INSTS)
@@ -35,6 +35,13 @@ Verdict0(e, i) ==
       [] e.e = "BitsS" -> JudgeBitsS(e, i)
       [] e.e = "Rot" -> JudgeRot(e, i)
       [] e.e = "Sqrt" -> JudgeSqrt(e, i)
+      [] e.e = "FrBin" -> JudgeFrBin(e, i)
+      [] e.e = "FrUn" -> JudgeFrUn(e, i)
+      [] e.e = "FrCmp" -> JudgeFrCmp(e, i)
+      [] e.e = "FrReduce" -> JudgeFrReduce(e, i)
+      [] e.e = "FrHash" -> JudgeFrHash(e, i)
+      [] e.e = "FrFloat" -> JudgeFrFloat(e, i)
+      [] e.e = "FrFromFloat" -> JudgeFrFromFloat(e, i)
       [] e.e = "RDiv" -> JudgeRDiv(e, i)
       [] e.e = "ROp" -> JudgeROp(e, i)
       [] e.e = "RConv" -> JudgeRConv(e, i)
